@@ -5,6 +5,7 @@ package props
 import (
 	"fmt"
 	"reflect"
+	"strconv"
 	"strings"
 	"testing"
 
@@ -326,6 +327,11 @@ func c08TypedCheck(c *Ctx, cs c08TypedCase) *Failure {
 	switch cs.Variant {
 	case "var", "invalid", "yaml11-true", "yaml11-false":
 		setLeaf(varDoc, leaf.segs, "${V}")
+	case "other-literal":
+		// another typed literal than the fat document's: both documents get it, one as a number, one through ${V}
+		n, _ := strconv.ParseInt(cs.Text, 10, 64)
+		setLeaf(litDoc, leaf.segs, int(n))
+		setLeaf(varDoc, leaf.segs, "${V}")
 	case "string-literal":
 		// the text as a quoted scalar in a document without any `$`: the same string the substitution would leave
 		setLeaf(varDoc, leaf.segs, cs.Text)
@@ -494,6 +500,10 @@ func c08TypedCases() ([]c08TypedCase, map[string]int) {
 		case "int":
 			for _, t := range []string{"abc", "3x", "--1", "one"} {
 				out = append(out, c08TypedCase{Path: p, Literal: lit, Kind: kind, Variant: "invalid", Text: t})
+			}
+			// values beyond 32 bits, zero and negatives: whatever the literal does, the variable does
+			for _, t := range []string{"4294967296", "9007199254740993", "0", "-1", "-4294967297"} {
+				out = append(out, c08TypedCase{Path: p, Literal: t, Kind: kind, Variant: "other-literal", Text: t})
 			}
 		case "float":
 			for _, t := range []string{"abc", "1.5.2", "x1"} {
